@@ -6,6 +6,7 @@ dispatcher `C15TracksV1.step`.
 -/
 import EngineModel.Api.GuardedTracksV1
 import Proofs.NoUbGuardsGen
+import Proofs.C15GuardValues
 import Proofs.NoUbTracksV1
 
 namespace EngineModel.Api.GuardedTracksV1
@@ -20,22 +21,12 @@ theorem s32_bounds (i : UInt32) : -2147483648 ≤ Prim.s32 i ∧ Prim.s32 i < 21
   have := i.toNat_lt
   unfold Prim.s32; split <;> omega
 
-/-- every regenerated 1.x range test has this meaning -/
-def IsRange (guard : Int → Nat → Bool) : Prop :=
-  ∀ (idx : Int) (n : Nat), -2147483648 ≤ idx → idx < 2147483648 → (guard idx n = true ↔ (idx < 0 ∨ (n : Int) ≤ idx))
+theorem isRange_hotCueAt : C15Guards.IsRange Guards.source.hotCueAt := C15Guards.v1_track_hot_cue_at_range_isRange
+theorem isRange_setHotCueAt : C15Guards.IsRange Guards.source.setHotCueAt := C15Guards.v1_track_set_hot_cue_at_range_isRange
+theorem isRange_loopAt : C15Guards.IsRange Guards.source.loopAt := C15Guards.v1_track_loop_at_range_isRange
+theorem isRange_setLoopAt : C15Guards.IsRange Guards.source.setLoopAt := C15Guards.v1_track_set_loop_at_range_isRange
 
-theorem isRange_body :
-    IsRange fun index size => ((decide (index < (0 : Int))) || (decide ((index % 18446744073709551616) ≥ (size : Int)))) := by
-  intro idx n h1 h2
-  simp only [Bool.or_eq_true, decide_eq_true_eq]
-  omega
-
-theorem isRange_hotCueAt : IsRange Guards.source.hotCueAt := isRange_body
-theorem isRange_setHotCueAt : IsRange Guards.source.setHotCueAt := isRange_body
-theorem isRange_loopAt : IsRange Guards.source.loopAt := isRange_body
-theorem isRange_setLoopAt : IsRange Guards.source.setLoopAt := isRange_body
-
-theorem slotSiteG_ok {α : Type} {guard : Int → Nat → Bool} (hg : IsRange guard) (l : List α) (i : UInt32) :
+theorem slotSiteG_ok {α : Type} {guard : Int → Nat → Bool} (hg : C15Guards.IsRange guard) (l : List α) (i : UInt32) :
     slotSiteG guard l i = .ok () := by
   unfold slotSiteG
   obtain ⟨h1, h2⟩ := s32_bounds i
@@ -53,15 +44,14 @@ theorem slotSiteG_ok {α : Type} {guard : Int → Nat → Bool} (hg : IsRange gu
 /-! ### the conversions -/
 
 theorem lengthCalcNone_eq (a b c e : Bool) :
-    Guards.source.lengthCalcNone a b c e = ((((!a) || (!b)) || (!c)) || (!e)) := rfl
-theorem bpmFieldsInRange_eq (a b : Bool) : Guards.source.bpmFieldsInRange a b = (a && b) := rfl
-theorem setBpmInRange_eq (a b : Bool) : Guards.source.setBpmInRange a b = (a && b) := rfl
-theorem extentsRateOut_eq (a : Bool) : Guards.source.extentsRateOut a = (!a) := rfl
-theorem overviewAbsent_eq (a b : Bool) : Guards.source.overviewAbsent a b = ((!a) || (!b)) := rfl
-theorem overviewNonEmpty_eq (a : Bool) : Guards.source.overviewNonEmpty a = (!a) := rfl
-theorem hiresAbsent_eq (a b c e : Bool) : Guards.source.hiresAbsent a b c e = ((((!a) || b) || (!c)) || e) := rfl
-theorem overviewLoop_iff (i size : Nat) : Guards.source.overviewLoop i size = true ↔ i < size := by
-  simp [Guards.source, C15Guards.v1_overview_loop]
+    Guards.source.lengthCalcNone a b c e = ((((!a) || (!b)) || (!c)) || (!e)) := C15Guards.v1_length_calc_none_eq a b c e
+theorem bpmFieldsInRange_eq (a b : Bool) : Guards.source.bpmFieldsInRange a b = (a && b) := C15Guards.v1_bpm_fields_inrange_eq a b
+theorem setBpmInRange_eq (a b : Bool) : Guards.source.setBpmInRange a b = (a && b) := C15Guards.v1_set_bpm_inrange_eq a b
+theorem extentsRateOut_eq (a : Bool) : Guards.source.extentsRateOut a = (!a) := C15Guards.v1_extents_rate_out_eq a
+theorem overviewAbsent_eq (a b : Bool) : Guards.source.overviewAbsent a b = ((!a) || (!b)) := C15Guards.v1_overview_absent_eq a b
+theorem overviewNonEmpty_eq (a : Bool) : Guards.source.overviewNonEmpty a = (!a) := C15Guards.v1_overview_nonempty_eq a
+theorem hiresAbsent_eq (a b c e : Bool) : Guards.source.hiresAbsent a b c e = ((((!a) || b) || (!c)) || e) := C15Guards.v1_hires_absent_eq a b c e
+theorem overviewLoop_iff (i size : Nat) : Guards.source.overviewLoop i size = true ↔ i < size := C15Guards.v1_overview_loop_iff i size
 
 theorem lengthCalcSiteG_ok (c : Option UInt64) (r : Option Fl.Bits) : lengthCalcSiteG Guards.source c r = .ok () := by
   unfold lengthCalcSiteG
